@@ -86,49 +86,215 @@ theorem anchoredLiteral_bridge_newline_fixed :
     Ref.refFind re #[97, 10, 120, 98, 99] 0 = none := by
   decide
 
+/-! ### BranchDispatcher: all former findings FIXED (nfa/branch_dispatch.go rewritten)
+
+  `hasFold` (the model's stand-in for `unicode.SimpleFold(r) != r`) is instantiated with `Ref.isAsciiLetter`, the least
+  parameter satisfying `FoldSound`; every pattern below contains ASCII runes only, where it agrees with the real function. -/
+
+/-- `\A` followed by the capture group `(b1|b2|…)` -/
+def bdPat (branches : List Re) : Re := Re.cat [Re.leaf .beginText, Re.cap (Re.alt branches)]
+
+theorem foldSound_isAsciiLetter : FoldSound Ref.isAsciiLetter := fun _ h => h
+
 set_option maxRecDepth 1000000 in
-/-- FINDING (everything after the alternation is ignored): `^(ab|cd)e` on "abx": dispatcher `(0,2)`, correct: no match -/
-theorem branchDispatch_trailing_counterexample :
+/-- FIXED (was: everything after the alternation is ignored): `^(ab|cd)e` and `^(foo|bar|qux)e` are no longer accepted
+    (the pattern must be EXACTLY `\A` + alternation), and meta builds no dispatcher for them; the same alternation
+    without the trailing `e` still is accepted. -/
+theorem branchDispatch_trailing_fixed :
     let re := Re.cat [Re.leaf .beginText, Re.cap (Re.alt [Re.lit [97, 98], Re.lit [99, 100]]), Re.lit [101]]
-    isBranchDispatchPattern re = true ∧
-    (metaBranchDispatcher re).map (fun d => d.search #[97, 98, 120]) = some (some (0, 2)) ∧
-    Ref.refFind re #[97, 98, 120] 0 = none := by
+    let re2 := Re.cat [Re.leaf .beginText,
+      Re.cap (Re.alt [Re.lit [102, 111, 111], Re.lit [98, 97, 114], Re.lit [113, 117, 120]]), Re.lit [101]]
+    let reOK := bdPat [Re.lit [97, 98], Re.lit [99, 100]]
+    isBranchDispatchPattern Ref.isAsciiLetter re = false ∧ (metaBranchDispatcher Ref.isAsciiLetter re).isNone = true ∧
+    Ref.refFind re #[97, 98, 120] 0 = none ∧
+    isBranchDispatchPattern Ref.isAsciiLetter re2 = false ∧ (metaBranchDispatcher Ref.isAsciiLetter re2).isNone = true ∧
+    isBranchDispatchPattern Ref.isAsciiLetter reOK = true ∧
+    (metaBranchDispatcher Ref.isAsciiLetter reOK).map (fun d => d.search #[97, 98, 120]) = some (some (0, 2)) ∧
+    Ref.refFind reOK #[97, 98, 120] 0 = some (0, 2) := by
   decide
 
 set_option maxRecDepth 1000000 in
-/-- FINDING (only the leading literal of a concatenation branch is checked): `^(a[bc]|d)` on "ax": dispatcher `(0,1)`,
-    correct: no match -/
-theorem branchDispatch_concat_counterexample :
-    let re := Re.cat [Re.leaf .beginText,
-      Re.cap (Re.alt [Re.cat [Re.lit [97], Re.cls [98, 99]], Re.lit [100]])]
-    isBranchDispatchPattern re = true ∧
-    (metaBranchDispatcher re).map (fun d => d.search #[97, 120]) = some (some (0, 1)) ∧
-    Ref.refFind re #[97, 120] 0 = none := by
+/-- FIXED (was: only the leading literal of a concatenation branch is checked): `^(a[bc]|d)` is still accepted, but the
+    branch is now the two steps `{a} {b,c}`: "ax" does not match, "ac" does — as the reference matcher says. -/
+theorem branchDispatch_concat_fixed :
+    let re := bdPat [Re.cat [Re.lit [97], Re.cls [98, 99]], Re.lit [100]]
+    isBranchDispatchPattern Ref.isAsciiLetter re = true ∧
+    (metaBranchDispatcher Ref.isAsciiLetter re).map (fun d => d.search #[97, 120]) = some none ∧
+    Ref.refFind re #[97, 120] 0 = none ∧
+    (metaBranchDispatcher Ref.isAsciiLetter re).map (fun d => d.search #[97, 99, 120]) = some (some (0, 2)) ∧
+    Ref.refFind re #[97, 99, 120] 0 = some (0, 2) := by
   decide
 
 set_option maxRecDepth 1000000 in
-/-- FINDING ("conservative" fallback `return 0, 1, true`): `^([ab][bc]|d)` on "a": dispatcher `(0,1)`, correct: no match;
-    and `^(a+|b)` on "aa": dispatcher `(0,1)`, correct `(0,2)` -/
-theorem branchDispatch_fallback_counterexample :
-    let re1 := Re.cat [Re.leaf .beginText,
-      Re.cap (Re.alt [Re.cat [Re.cls [97, 98], Re.cls [98, 99]], Re.lit [100]])]
-    let re2 := Re.cat [Re.leaf .beginText, Re.cap (Re.alt [Re.plusOf (Re.lit [97]), Re.lit [98]])]
-    (isBranchDispatchPattern re1 = true ∧
-     (metaBranchDispatcher re1).map (fun d => d.search #[97]) = some (some (0, 1)) ∧
-     Ref.refFind re1 #[97] 0 = none) ∧
-    (isBranchDispatchPattern re2 = true ∧
-     (metaBranchDispatcher re2).map (fun d => d.search #[97, 97]) = some (some (0, 1)) ∧
+/-- FIXED (was: "conservative" fallback `return 0, 1, true`): there is no fallback any more.  `^([ab][bc]|d)` on "a": no
+    match; `^(a+|b)` on "aa": `(0,2)` (a literal under `+` is a one-step element, the repetition is the tail). -/
+theorem branchDispatch_fallback_fixed :
+    let re1 := bdPat [Re.cat [Re.cls [97, 98], Re.cls [98, 99]], Re.lit [100]]
+    let re2 := bdPat [Re.plusOf (Re.lit [97]), Re.lit [98]]
+    (isBranchDispatchPattern Ref.isAsciiLetter re1 = true ∧
+     (metaBranchDispatcher Ref.isAsciiLetter re1).map (fun d => d.search #[97]) = some none ∧
+     Ref.refFind re1 #[97] 0 = none ∧
+     (metaBranchDispatcher Ref.isAsciiLetter re1).map (fun d => d.search #[97, 99]) = some (some (0, 2)) ∧
+     Ref.refFind re1 #[97, 99] 0 = some (0, 2)) ∧
+    (isBranchDispatchPattern Ref.isAsciiLetter re2 = true ∧
+     (metaBranchDispatcher Ref.isAsciiLetter re2).map (fun d => d.search #[97, 97]) = some (some (0, 2)) ∧
      Ref.refFind re2 #[97, 97] 0 = some (0, 2)) := by
   decide
 
 set_option maxRecDepth 1000000 in
-/-- FINDING (`FoldCase` ignored; the parser stores the folded literal as "AB"): `(?i)^(ab|cd)` on "ab": dispatcher: no
-    match, correct `(0,2)` -/
-theorem branchDispatch_foldCase_counterexample :
-    let re := Re.cat [Re.leaf .beginText, Re.cap (Re.alt [Re.litFold [65, 66], Re.litFold [67, 68]])]
-    isBranchDispatchPattern re = true ∧
-    (metaBranchDispatcher re).map (fun d => d.search #[97, 98]) = some none ∧
-    Ref.refFind re #[97, 98] 0 = some (0, 2) := by
+/-- FIXED (was: `FoldCase` ignored): `(?i)^(ab|cd)` and `(?i)^(foo|bar|qux)` (literals stored folded, "AB", "FOO", …) are
+    rejected — a `FoldCase` literal is only accepted when none of its runes has a case variant, e.g. `(?i)^(12|34)`, on
+    which folding is the identity. -/
+theorem branchDispatch_foldCase_fixed :
+    let re := bdPat [Re.litFold [65, 66], Re.litFold [67, 68]]
+    let re2 := bdPat [Re.litFold [70, 79, 79], Re.litFold [66, 65, 82], Re.litFold [81, 85, 88]]
+    let reDigits := bdPat [Re.litFold [49, 50], Re.litFold [51, 52]]
+    isBranchDispatchPattern Ref.isAsciiLetter re = false ∧ (metaBranchDispatcher Ref.isAsciiLetter re).isNone = true ∧
+    Ref.refFind re #[97, 98] 0 = some (0, 2) ∧
+    isBranchDispatchPattern Ref.isAsciiLetter re2 = false ∧
+    isBranchDispatchPattern Ref.isAsciiLetter reDigits = true ∧
+    (metaBranchDispatcher Ref.isAsciiLetter reDigits).map (fun d => d.search #[51, 52, 53]) = some (some (0, 2)) ∧
+    Ref.refFind reDigits #[51, 52, 53] 0 = some (0, 2) := by
+  decide
+
+set_option maxRecDepth 1000000 in
+/-- FIXED (was: lazy quantifier ignored): `^(\d+?|UUID|hex32)` is rejected (a variable-count repetition must be greedy);
+    on "11" leftmost-first semantics is `(0,1)`, the old dispatcher said `(0,2)`.  A lazy FIXED count `\d{2}?` has no
+    choice to make and is accepted. -/
+theorem branchDispatch_lazy_fixed :
+    let uuid := Re.lit [85, 85, 73, 68]
+    let hex32 := Re.lit [104, 101, 120, 51, 50]
+    let re := bdPat [Re.plusOf (Re.cls [48, 57]) (lazy := true), uuid, hex32]
+    let reFix := bdPat [Re.repOf (Re.cls [48, 57]) 2 2 (lazy := true), uuid, hex32]
+    isBranchDispatchPattern Ref.isAsciiLetter re = false ∧ (metaBranchDispatcher Ref.isAsciiLetter re).isNone = true ∧
+    Ref.refFind re #[49, 49] 0 = some (0, 1) ∧
+    isBranchDispatchPattern Ref.isAsciiLetter reFix = true ∧
+    (metaBranchDispatcher Ref.isAsciiLetter reFix).map (fun d => d.search #[49, 49, 49]) = some (some (0, 2)) ∧
+    Ref.refFind reFix #[49, 49, 49] 0 = some (0, 2) := by
+  decide
+
+set_option maxRecDepth 1000000 in
+/-- FIXED (was: `(?m)^` and look-around accepted): `(?m)^(foo|bar)` (`OpBeginLine`: may also match after a newline —
+    "x\nfoo" has the match `(2,5)`), `^(foo|bar)\b` (trailing assertion) and `^(foo\b|bar)` (assertion inside a branch)
+    are rejected. -/
+theorem branchDispatch_anchor_fixed :
+    let foo := Re.lit [102, 111, 111]
+    let bar := Re.lit [98, 97, 114]
+    let reM := Re.cat [Re.leaf .beginLine, Re.cap (Re.alt [foo, bar])]
+    let reB := Re.cat [Re.leaf .beginText, Re.cap (Re.alt [foo, bar]), Re.leaf .wordBoundary]
+    let reB2 := bdPat [Re.cat [foo, Re.leaf .wordBoundary], bar]
+    isBranchDispatchPattern Ref.isAsciiLetter reM = false ∧ (metaBranchDispatcher Ref.isAsciiLetter reM).isNone = true ∧
+    Ref.refFind reM #[120, 10, 102, 111, 111] 0 = some (2, 5) ∧
+    isBranchDispatchPattern Ref.isAsciiLetter reB = false ∧ (metaBranchDispatcher Ref.isAsciiLetter reB).isNone = true ∧
+    isBranchDispatchPattern Ref.isAsciiLetter reB2 = false := by
+  decide
+
+set_option maxRecDepth 1000000 in
+/-- FIXED (was: runes above U+007F written as single bytes): `^(é|x)` — the literal is the two steps C3 A9: "é" matches,
+    the ill-formed byte E9 does not; a class with a member above U+007F (`^([a-bé]|x)`) and the literal U+FFFD (what
+    every ill-formed byte decodes to) are rejected. -/
+theorem branchDispatch_utf8_fixed :
+    let re := bdPat [Re.lit [0xE9], Re.lit [120]]
+    isBranchDispatchPattern Ref.isAsciiLetter re = true ∧
+    (metaBranchDispatcher Ref.isAsciiLetter re).map (fun d => d.search #[0xC3, 0xA9, 120]) = some (some (0, 2)) ∧
+    Ref.refFind re #[0xC3, 0xA9, 120] 0 = some (0, 2) ∧
+    (metaBranchDispatcher Ref.isAsciiLetter re).map (fun d => d.search #[0xE9]) = some none ∧
+    Ref.refFind re #[0xE9] 0 = none ∧
+    isBranchDispatchPattern Ref.isAsciiLetter (bdPat [Re.cls [97, 98, 0xE9, 0xE9], Re.lit [120]]) = false ∧
+    isBranchDispatchPattern Ref.isAsciiLetter (bdPat [Re.lit [0xFFFD], Re.lit [120]]) = false := by
+  decide
+
+set_option maxRecDepth 1000000 in
+/-- other rejections that keep the dispatcher exact: overlapping first bytes (`^(ab|ac)`), a branch that can match the
+    empty string (`^(a*|b)`, `^(|b)`), a repetition that does not end the branch (`^(a+b|c)`), a repeated element that is
+    not one byte (`^((?:ab)+|c)`), `.` (`^(.|x)`), a nested alternation (`^((?:a|b)|c)`), a single branch. -/
+theorem branchDispatch_rejections :
+    isBranchDispatchPattern Ref.isAsciiLetter (bdPat [Re.lit [97, 98], Re.lit [97, 99]]) = false ∧
+    isBranchDispatchPattern Ref.isAsciiLetter (bdPat [Re.starOf (Re.lit [97]), Re.lit [98]]) = false ∧
+    isBranchDispatchPattern Ref.isAsciiLetter (bdPat [Re.leaf .emptyMatch, Re.lit [98]]) = false ∧
+    isBranchDispatchPattern Ref.isAsciiLetter (bdPat [Re.cat [Re.plusOf (Re.lit [97]), Re.lit [98]], Re.lit [99]]) = false ∧
+    isBranchDispatchPattern Ref.isAsciiLetter (bdPat [Re.plusOf (Re.lit [97, 98]), Re.lit [99]]) = false ∧
+    isBranchDispatchPattern Ref.isAsciiLetter (bdPat [Re.leaf .anyCharNotNL, Re.lit [120]]) = false ∧
+    isBranchDispatchPattern Ref.isAsciiLetter (bdPat [Re.alt [Re.lit [97], Re.lit [98]], Re.lit [99]]) = false ∧
+    isBranchDispatchPattern Ref.isAsciiLetter (bdPat [Re.lit [97]]) = false := by
+  decide
+
+set_option maxRecDepth 1000000 in
+/-- positive witness `^(foo|ba[rz]|qux)`: accepted, and the dispatcher answers the reference result -/
+theorem branchDispatch_accepted_literals :
+    let re := bdPat [Re.lit [102, 111, 111], Re.cat [Re.lit [98, 97], Re.cls [114, 114, 122, 122]], Re.lit [113, 117, 120]]
+    isBranchDispatchPattern Ref.isAsciiLetter re = true ∧
+    (metaBranchDispatcher Ref.isAsciiLetter re).map (fun d => d.search #[98, 97, 122, 122]) = some (some (0, 3)) ∧
+    Ref.refFind re #[98, 97, 122, 122] 0 = some (0, 3) ∧
+    (metaBranchDispatcher Ref.isAsciiLetter re).map (fun d => d.search #[98, 97, 120]) = some none ∧
+    Ref.refFind re #[98, 97, 120] 0 = none ∧
+    (metaBranchDispatcher Ref.isAsciiLetter re).map (fun d => d.search #[120, 102, 111, 111]) = some none ∧
+    Ref.refFind re #[120, 102, 111, 111] 0 = none ∧
+    (metaBranchDispatcher Ref.isAsciiLetter re).map (fun d => d.search #[]) = some none ∧
+    Ref.refFind re #[] 0 = none := by
+  decide
+
+set_option maxRecDepth 1000000 in
+/-- positive witness `^(\d+|UUID|hex)`: accepted, and the dispatcher answers the reference result -/
+theorem branchDispatch_accepted_digits :
+    let re := bdPat [Re.plusOf (Re.cls [48, 57]), Re.lit [85, 85, 73, 68], Re.lit [104, 101, 120]]
+    isBranchDispatchPattern Ref.isAsciiLetter re = true ∧
+    (metaBranchDispatcher Ref.isAsciiLetter re).map (fun d => d.search #[49, 50, 51, 120]) = some (some (0, 3)) ∧
+    Ref.refFind re #[49, 50, 51, 120] 0 = some (0, 3) ∧
+    (metaBranchDispatcher Ref.isAsciiLetter re).map (fun d => d.search #[85, 85, 73, 68, 49]) = some (some (0, 4)) ∧
+    Ref.refFind re #[85, 85, 73, 68, 49] 0 = some (0, 4) ∧
+    (metaBranchDispatcher Ref.isAsciiLetter re).map (fun d => d.search #[104, 101]) = some none ∧
+    Ref.refFind re #[104, 101] 0 = none ∧
+    (metaBranchDispatcher Ref.isAsciiLetter re).map (fun d => d.isMatch #[104, 101, 120]) = some true ∧
+    (metaBranchDispatcher Ref.isAsciiLetter re).map (fun d => d.searchAt #[120, 49] 1) = some none ∧
+    Ref.refFind re #[120, 49] 1 = none := by
+  decide
+
+set_option maxRecDepth 1000000 in
+/-- positive witness `^(?:a\d{2,3}|bcd?)` (no capture group, bounded tail, optional last byte) -/
+theorem branchDispatch_accepted_bounded :
+    let re := Re.cat [Re.leaf .beginText,
+      Re.alt [Re.cat [Re.lit [97], Re.repOf (Re.cls [48, 57]) 2 3], Re.cat [Re.lit [98, 99], Re.questOf (Re.lit [100])]]]
+    isBranchDispatchPattern Ref.isAsciiLetter re = true ∧
+    (metaBranchDispatcher Ref.isAsciiLetter re).map (fun d => d.search #[97, 49, 50, 51, 52]) = some (some (0, 4)) ∧
+    Ref.refFind re #[97, 49, 50, 51, 52] 0 = some (0, 4) ∧
+    (metaBranchDispatcher Ref.isAsciiLetter re).map (fun d => d.search #[97, 49]) = some none ∧
+    Ref.refFind re #[97, 49] 0 = none ∧
+    (metaBranchDispatcher Ref.isAsciiLetter re).map (fun d => d.search #[98, 99, 100, 100]) = some (some (0, 3)) ∧
+    Ref.refFind re #[98, 99, 100, 100] 0 = some (0, 3) ∧
+    (metaBranchDispatcher Ref.isAsciiLetter re).map (fun d => d.search #[98, 99]) = some (some (0, 2)) ∧
+    Ref.refFind re #[98, 99] 0 = some (0, 2) := by
+  decide
+
+set_option maxRecDepth 1000000 in
+/-- why `branchDispatcher_eq_reference` keeps the hypothesis `FoldSound hasFold` (a fact about `unicode.SimpleFold`, not a
+    restriction of the dispatcher): with a `hasFold` that denies the letter `A` its case variant, `(?i)^(a|b)` (stored as
+    `A`, `B`) is accepted and misses "a", which the reference matcher (and Go) matches. -/
+theorem branchDispatch_foldSound_needed :
+    let re := bdPat [Re.litFold [65], Re.litFold [66]]
+    let noFold : Nat → Bool := fun _ => false
+    ¬ FoldSound noFold ∧
+    isBranchDispatchPattern noFold re = true ∧
+    (metaBranchDispatcher noFold re).map (fun d => d.search #[97]) = some none ∧
+    Ref.refFind re #[97] 0 = some (0, 1) := by
+  refine ⟨fun hc => absurd (hc 65 (by decide)) (by decide), ?_⟩
+  decide
+
+/-- `n` capture groups around `x` -/
+def nestCap : Nat → Re → Re
+  | 0, x => x
+  | n+1, x => Re.cap (nestCap n x)
+
+set_option maxRecDepth 1000000 in
+/-- why `branchDispatcher_eq_reference` keeps the hypothesis `RefDepthOK re` (a limit of the REFERENCE matcher): the
+    dispatcher strips any number of capture groups, `Ref.fuelFor` measures the pattern only 32 levels deep.  With 300 groups
+    around `(a|b)` the dispatcher still answers `(0,1)` on "a", the reference matcher runs out of fuel. -/
+theorem branchDispatch_depth_needed :
+    let re := Re.cat [Re.leaf .beginText, nestCap 300 (Re.alt [Re.lit [97], Re.lit [98]])]
+    ¬ RefDepthOK re ∧
+    isBranchDispatchPattern Ref.isAsciiLetter re = true ∧
+    (metaBranchDispatcher Ref.isAsciiLetter re).map (fun d => d.search #[97]) = some (some (0, 1)) ∧
+    Ref.refFind re #[97] 0 = none := by
   decide
 
 set_option maxRecDepth 1000000 in
